@@ -3,41 +3,72 @@
 
   Python source modelled (line numbers of /repo after the `fix:` commits):
   * nibabel/loadsave.py:147-208            `save()` — `to_filename`, on ImageFileError class conversion by
-                                            extension (`from_image`) and `converted.to_filename`
+                                            extension (the four NIfTI single<->pair special cases, else the first
+                                            class of `all_image_classes` whose `valid_exts` has the extension;
+                                            `from_image`) and `converted.to_filename`
+  * nibabel/imageclasses.py:33-48          `all_image_classes` (order matters), `valid_exts` of every class
   * nibabel/filebasedimages.py:287-304     `to_filename` — rebinding `self.file_map`, then `to_file_map()`
-  * nibabel/analyze.py:1001-1066           `AnalyzeImage.to_file_map` (NIfTI single/pair inherit):
+  * nibabel/analyze.py:1001-1066           `AnalyzeImage.to_file_map` (SPM2 Analyze, NIfTI-1/2 single/pair inherit):
                                             `data = np.asanyarray(self.dataobj)`; `if isinstance(data, np.memmap):
-                                            data = np.array(data)` (the repair); open 'wb'; write; rebind
+                                            data = np.array(data)` (the repair); `update_header()`; open 'wb'; write
+  * nibabel/spm99analyze.py:304-340        `Spm99AnalyzeImage.to_file_map`: the above, then the affine goes to the
+                                            `.mat` side file; `from_file_map` (241-302) reads it back
   * nibabel/freesurfer/mghformat.py:546-562 `MGHImage.to_file_map` (same shape)
+  * nibabel/spatialimages.py:532-559       `update_header`: `if np.allclose(self._affine, hdr.get_best_affine()):
+                                            return` else `_affine2header()`
+  * nibabel/nifti1.py:908-915              `get_best_affine`: sform if `sform_code != 0`, else qform if
+                                            `qform_code != 0`, else the base affine
+  * nibabel/nifti1.py:2052-2058            `_affine2header`: `set_sform(affine, 'aligned')`, `set_qform(affine,
+                                            'unknown')`;  mghformat.py:583-597 (delta / Mdc / Pxyz_c)
+  * nibabel/nifti1.py `Nifti1Pair.set_sform/set_qform`: header first, then `img._affine[:] = best affine`
   * nibabel/freesurfer/mghformat.py:143-154 `MGHHeader.from_header` (foreign header -> FRESH header: float32)
-  * nibabel/spatialimages.py:591-612, 206-220 `from_image` / `from_header` (dtype, shape, zooms survive)
-  * nibabel/volumeutils.py:441-453         `array_from_file`: `np.memmap(mode='c')` for an uncompressed file
+  * nibabel/analyze.py `AnalyzeHeader.from_header`: own type -> copy; other Analyze-family type -> fresh NATIVE
+                                            header + every common field (`as_analyze_map`); else dtype/shape/zooms
+  * nibabel/spatialimages.py:591-612, 206-220 `from_image` / `from_header`
+  * nibabel/volumeutils.py:441-453         `array_from_file`: `np.memmap(mode=…)` for an uncompressed file
   * nibabel/arrayproxy.py:174, 383-441     the proxy keeps `file_like` and the (shape, dtype, offset, slope, inter)
                                             it was built with; `__array__` returns the memmap itself when
-                                            slope, inter = 1, 0; `astype(copy=False)` keeps it for float64
-  * nibabel/dataobj_images.py              `get_fdata` cache, `uncache`
+                                            slope, inter = 1, 0; `astype(dtype, copy=False)` keeps it when the
+                                            stored dtype already is the (native) dtype asked for
+  * nibabel/dataobj_images.py:225-357      `get_fdata(dtype)` cache (reused only for the same dtype), `uncache`
   * nibabel/filebasedimages.py `to_bytes`  serialises through `to_file_map(BytesIO map)` (rebinds `file_map`!)
 
   Abstractions
-  * a file's content is what a FRESH load decodes to: (data id, affine id, on-disk dtype, scaled?, tag), or
-    `truncated` (opened 'wb', nothing written yet);   the class of a fresh load is a function of the path;
+  * a file's content is what a FRESH load decodes to: (class, data id, affine id, on-disk dtype, byte order,
+    scaled?, tag, transform fields), or `truncated` (opened 'wb', nothing written yet);  `load` returns the class
+    that wrote the file (header sniffing: trusted, compared on every history);
   * data/affine/tag are abstract identifiers (Nat);  shape is fixed;  "scaled" = slope/inter ≠ (1, 0);
-  * external behaviour entering as contract (trusted base): `np.memmap(mode='c')` is a REFERENCE to the file's
+    `np.allclose` on affines is identity of ids in the executable model (`closeId`) — the decision rule itself
+    (`reconcile`) takes the predicate as a parameter;
+  * external behaviour entering as contract (trusted base): `np.memmap` is a REFERENCE to the file's
     current content — reading it after the file was truncated or re-laid-out yields SIGBUS, zeros or
     garbage, all collapsed into the outcome `bad`;  a compressed file cannot be mapped (fresh decode);
     NumPy casts of the (small-integer) test data are value preserving up to the array-writer tolerance.
 -/
 namespace Nb.C09
 
-/-- the path alphabet of the property (`a.img` stands for the pair `a.img` + `a.hdr`) -/
+/-- the path alphabet of the property (`a.img` stands for the pair `a.img` + `a.hdr` (+ `a.mat`),
+    `c.img.gz` for `c.img.gz` + `c.hdr.gz` (+ `c.mat.gz`)) -/
 inductive Path where
   | aNii | aNiiGz | bNii | aImg | aMgh | aMgz
+  | sImg        -- initially an SPM2 Analyze pair (+ .mat)
+  | nNii        -- initially a NIfTI-2 single file
+  | cImgGz      -- compressed pair
+  | aNiiBz2 | bNiiZst
   deriving Repr, DecidableEq, Inhabited
 
 inductive Cls where
   | nifti1   -- Nifti1Image
   | pair     -- Nifti1Pair
   | mgh      -- MGHImage
+  | spm2     -- Spm2AnalyzeImage (what `load` makes of any non-NIfTI `.img/.hdr`)
+  | nifti2   -- Nifti2Image
+  | pair2    -- Nifti2Pair
+  deriving Repr, DecidableEq, Inhabited
+
+/-- extension family of a name (after stripping `.gz/.bz2/.zst`; `.hdr` = `.img`, `.mgz` = `.mgh`) -/
+inductive Ext where
+  | nii | img | mgh
   deriving Repr, DecidableEq, Inhabited
 
 inductive DT where
@@ -48,26 +79,91 @@ def DT.isFloat : DT → Bool
   | .f32 | .f64 => true
   | _ => false
 
-/-- `Opener`: `.gz` names (and `.mgz`) are compressed streams — never memory mapped -/
+/-- `Opener`: `.gz/.bz2/.zst` names (and `.mgz`) are compressed streams — never memory mapped -/
 def Path.compressed : Path → Bool
-  | .aNiiGz | .aMgz => true
+  | .aNiiGz | .aMgz | .cImgGz | .aNiiBz2 | .bNiiZst => true
   | _ => false
 
-/-- image class that `load` returns for / `save` converts to, by extension (loadsave.py) -/
-def Path.cls : Path → Cls
-  | .aNii | .aNiiGz | .bNii => .nifti1
-  | .aImg => .pair
+def Path.ext : Path → Ext
+  | .aNii | .aNiiGz | .bNii | .nNii | .aNiiBz2 | .bNiiZst => .nii
+  | .aImg | .sImg | .cImgGz => .img
   | .aMgh | .aMgz => .mgh
 
-def Path.all : List Path := [.aNii, .aNiiGz, .bNii, .aImg, .aMgh, .aMgz]
+/-- `klass.valid_exts` -/
+def Cls.validExt : Cls → Ext → Bool
+  | .nifti1, .nii | .nifti2, .nii => true
+  | .pair, .img | .pair2, .img | .spm2, .img => true
+  | .mgh, .mgh => true
+  | _, _ => false
+
+/-- first class of `all_image_classes` whose `valid_exts` contains the extension -/
+def firstCls : Ext → Cls
+  | .nii => .nifti1
+  | .img => .pair
+  | .mgh => .mgh
+
+/-- class of the image `nib.save(img, name)` actually writes (loadsave.py:147-208): the image's own class when
+    `to_filename` accepts the extension; the NIfTI single <-> pair special cases; else the first class -/
+def outCls (c : Cls) (e : Ext) : Cls :=
+  if c.validExt e then c
+  else match c, e with
+    | .nifti1, .img => .pair
+    | .nifti2, .img => .pair2
+    | .pair, .nii => .nifti1
+    | .pair2, .nii => .nifti2
+    | _, e => firstCls e
+
+/-- class by extension alone (what a save of a foreign image produces) -/
+def Path.cls (p : Path) : Cls := firstCls p.ext
+
+def Path.all : List Path :=
+  [.aNii, .aNiiGz, .bNii, .aImg, .aMgh, .aMgz, .sImg, .nNii, .cImgGz, .aNiiBz2, .bNiiZst]
+
+def Cls.isNifti : Cls → Bool
+  | .nifti1 | .pair | .nifti2 | .pair2 => true
+  | _ => false
+
+/-- the affine-carrying header fields: NIfTI `sform_code`, sform (affine id), `qform_code`, qform (affine id);
+    MGH: `sa` = the affine `Mdc / delta / Pxyz_c` encode (`sc` = 1);  SPM2: unused (all 0 — the affine lives in
+    the `.mat` file) -/
+structure XF where
+  sc : Nat
+  sa : Nat
+  qc : Nat
+  qa : Nat
+  deriving Repr, DecidableEq, Inhabited
+
+/-- id of "the base affine of a fresh header" (zooms and shape only) -/
+def baseAff : Nat := 1000
+
+/-- `hdr.get_best_affine()` (nifti1.py:908-915) -/
+def XF.best (x : XF) : Nat := if x.sc ≠ 0 then x.sa else if x.qc ≠ 0 then x.qa else baseAff
+
+/-- `img._affine2header()` -/
+def affine2header (c : Cls) (a : Nat) (x : XF) : XF :=
+  match c with
+  | .mgh => ⟨1, a, 0, 0⟩
+  | .spm2 => x               -- zooms only
+  | _ => ⟨2, a, 0, a⟩        -- sform 'aligned', qform 'unknown'
+
+/-- `update_header()`: keep the header when its best affine is `close` to the image affine, else overwrite -/
+def reconcile (close : Nat → Nat → Bool) (c : Cls) (a : Nat) (x : XF) : XF :=
+  if c = .spm2 then x
+  else if close a x.best then x else affine2header c a x
+
+/-- `np.allclose` on the affine ids of the executable model -/
+def closeId (a b : Nat) : Bool := a == b
 
 /-- what a fresh load of an intact file decodes to -/
 structure Content where
+  cls : Cls
   data : Nat
-  aff : Nat
+  aff : Nat             -- `img.affine` of a fresh load (best header affine; SPM2: from the `.mat` file)
   dt : DT
+  be : Bool             -- header is not in native byte order (MGH: always)
   scaled : Bool
   tag : Nat
+  xf : XF
   deriving Repr, DecidableEq, Inhabited
 
 inductive File where
@@ -79,40 +175,45 @@ abbrev FS := Path → Option File
 
 def FS.set (fs : FS) (q : Path) (v : Option File) : FS := fun p => if p = q then v else fs p
 
-/-- `_fdata_cache` of `DataobjImage` -/
+/-- `_fdata_cache` of `DataobjImage`; `w` = the cache is float32 (`get_fdata(dtype=np.float32)`) -/
 inductive Cache where
   | none
-  | owned (d : Nat)     -- an ndarray that owns its memory
-  | alias               -- the float64 memmap of the source file itself (`astype(copy=False)`)
+  | owned (d : Nat) (w : Bool)   -- an ndarray that owns its memory
+  | alias (w : Bool)             -- the float memmap of the source file itself (`astype(copy=False)`)
   deriving Repr, DecidableEq, Inhabited
 
 /-- a lazily loaded image: header state + array proxy + caches -/
 structure Img where
   cls : Cls
   dt : DT               -- header data dtype (what the next save writes)
+  be : Bool             -- header byte order
   tag : Nat             -- a free header field (`descrip` / `tr`)
   aff : Nat             -- img.affine
-  hdrAff : Nat          -- affine the HEADER fields (sform/qform, MGH Mdc/Pxyz_c) currently encode
+  xf : XF               -- affine fields of the HEADER
   data : Nat            -- GHOST: data id the proxy decoded when the image was loaded (not used by `step`)
   src : Path            -- proxy.file_like
   srcDt : DT            -- proxy spec: dtype ...
+  srcBe : Bool          -- ... its byte order ...
   srcScaled : Bool      -- ... and slope/inter the proxy was built with
-  mm : Bool             -- `mmap=` argument of load
+  mm : Bool             -- `mmap=` argument of load (True / 'c' / 'r')
   fname : Option Path   -- file_map (what `get_filename()` reports)
   cache : Cache
   deriving Repr, DecidableEq, Inhabited
 
+/-- affine the header currently encodes (what `img.header.get_best_affine()` returns) -/
+def Img.hdrAff (im : Img) : Nat := im.xf.best
+
 /-- result of `np.asanyarray(self.dataobj)` -/
 inductive Mat where
   | copy (d : Nat)      -- fresh ndarray
-  | ref (p : Path) (dt : DT) (scaled : Bool)   -- np.memmap on `p`, interpreting it with this layout
+  | ref (p : Path) (dt : DT) (be : Bool) (scaled : Bool)   -- np.memmap on `p`, interpreting it with this layout
   deriving Repr, DecidableEq, Inhabited
 
-/-- read `p` through a proxy / memmap built for layout (dt, scaled): `none` = SIGBUS / zeros / garbage /
-    "Expected n bytes, got m" -/
-def readLayout (fs : FS) (p : Path) (dt : DT) (scaled : Bool) : Option Nat :=
+/-- read `p` through a proxy / memmap built for layout (dt, byte order, scaled): `none` = SIGBUS / zeros /
+    garbage / "Expected n bytes, got m" -/
+def readLayout (fs : FS) (p : Path) (dt : DT) (be : Bool) (scaled : Bool) : Option Nat :=
   match fs p with
-  | some (.intact c) => if c.dt = dt ∧ c.scaled = scaled then some c.data else none
+  | some (.intact c) => if c.dt = dt ∧ c.be = be ∧ c.scaled = scaled then some c.data else none
   | _ => none
 
 /-- the proxy hands out the memmap itself iff mmap was requested, the file is not compressed and no scaling
@@ -121,31 +222,43 @@ def Img.mapped (im : Img) : Bool := im.mm && !im.src.compressed && !im.srcScaled
 
 /-- `np.asanyarray(img.dataobj)` -/
 def materialise (fs : FS) (im : Img) : Option Mat :=
-  match readLayout fs im.src im.srcDt im.srcScaled with
+  match readLayout fs im.src im.srcDt im.srcBe im.srcScaled with
   | none => none
-  | some d => if im.mapped then some (.ref im.src im.srcDt im.srcScaled) else some (.copy d)
+  | some d => if im.mapped then some (.ref im.src im.srcDt im.srcBe im.srcScaled) else some (.copy d)
 
 /-- touch the elements of a materialised array -/
 def deref (fs : FS) : Mat → Option Nat
   | .copy d => some d
-  | .ref p dt sc => readLayout fs p dt sc
+  | .ref p dt be sc => readLayout fs p dt be sc
 
 /-- dtype of the in-memory array is floating: float storage, or integer storage with scale factors -/
 def Img.arrFloat (im : Img) : Bool := im.srcDt.isFloat || im.srcScaled
 
-/-- header of the image actually written to `q` (`save()` conversion rules):
-    same class → own header; NIfTI single↔pair → all fields copied (`as_analyze_map`);
+/-- header of the image actually written to `q` before `update_header` (`save()` conversion rules):
+    (dtype, tag, byte order, affine fields).
+    same class → own header; between Analyze-family classes → fresh NATIVE header with every common field copied
+    (`as_analyze_map`: NIfTI <-> NIfTI keeps sform/qform, SPM2 → NIfTI has none);
     anything → MGH: FRESH MGH header (float32, tr 0); MGH → NIfTI: dtype/shape/zooms only -/
-def outHeader (im : Img) (q : Path) : DT × Nat :=
-  if q.cls = im.cls then (im.dt, im.tag)
-  else if q.cls = .mgh then (.f32, 0)
-  else if im.cls = .mgh then (im.dt, 0)
-  else (im.dt, im.tag)
+def outHeader (im : Img) (q : Path) : DT × Nat × Bool × XF :=
+  let c := outCls im.cls q.ext
+  if c = im.cls then (im.dt, im.tag, im.be, im.xf)
+  else if c = .mgh then (.f32, 0, true, ⟨1, baseAff, 0, 0⟩)
+  else if im.cls = .mgh then (im.dt, 0, false, ⟨0, 0, 0, 0⟩)
+  else (im.dt, im.tag, false, if im.cls.isNifti then im.xf else ⟨0, 0, 0, 0⟩)
 
 /-- the array writer computes scale factors iff the array is floating and the output integer
-    (NIfTI family only; MGH `array_to_file` just casts) -/
+    (Analyze family: NIfTI slope+inter, SPM2 slope; MGH `array_to_file` just casts) -/
 def outScaled (im : Img) (q : Path) : Bool :=
-  q.cls != .mgh && !(outHeader im q).1.isFloat && im.arrFloat
+  outCls im.cls q.ext != .mgh && !(outHeader im q).1.isFloat && im.arrFloat
+
+/-- affine fields of the header as written: `update_header()` of the (converted) image -/
+def outXF (im : Img) (q : Path) : XF :=
+  reconcile closeId (outCls im.cls q.ext) im.aff (outHeader im q).2.2.2
+
+/-- `img.affine` of a fresh load of the written file: the header's best affine; SPM2: the `.mat` file, which
+    `Spm99AnalyzeImage.to_file_map` writes from `self._affine` -/
+def outAff (im : Img) (q : Path) : Nat :=
+  if outCls im.cls q.ext = .spm2 then im.aff else (outXF im q).best
 
 inductive Out where
   | noImg                       -- op without a live image
@@ -173,7 +286,7 @@ def writeTo (orig : Bool) (fs : FS) (im : Img) (q : Path) : Out × FS :=
     -- if isinstance(data, np.memmap): data = np.array(data)     [the repair]
     let m? : Option Mat :=
       match m with
-      | .ref _ _ _ => if orig then some m else (deref fs m).map Mat.copy
+      | .ref _ _ _ _ => if orig then some m else (deref fs m).map Mat.copy
       | .copy d => some (.copy d)
     match m? with
     | none => (.bad, fs)
@@ -184,47 +297,56 @@ def writeTo (orig : Bool) (fs : FS) (im : Img) (q : Path) : Out × FS :=
       match deref fs1 m' with
       | none => (.bad, fs1)
       | some d =>
-        let (dtO, tagO) := outHeader im q
-        let c : Content := { data := d, aff := im.aff, dt := dtO, scaled := outScaled im q, tag := tagO }
+        let (dtO, tagO, beO, _) := outHeader im q
+        let c : Content := { cls := outCls im.cls q.ext, data := d, aff := outAff im q, dt := dtO, be := beO,
+                             scaled := outScaled im q, tag := tagO, xf := outXF im q }
         (.saved c, fs1.set q (some (.intact c)))
 
 /-- `nib.save(img, q)`: rebinding of `file_map` happens only when no class conversion was needed; in that case
     `update_header()` also reconciles the image's OWN header with `img.affine` in place.  A converting save works on
     `Klass.from_image(img)` = `Klass(img.dataobj, img.affine, from_header(img.header))` — a COPY of the header that
-    `update_header()` reconciles with `img.affine`; the original header keeps whatever was edited into it.  Either
-    way the file gets `im.aff` (spatialimages.py:532-559, 591-612). -/
+    `update_header()` reconciles with `img.affine`; the original header keeps whatever was edited into it. -/
 def save (orig : Bool) (fs : FS) (im : Img) (q : Path) : Out × FS × Img :=
   match writeTo orig fs im q with
   | (.saved c, fs') =>
-      (.saved c, fs', if q.cls = im.cls then { im with fname := some q, hdrAff := im.aff } else im)
+      (.saved c, fs', if outCls im.cls q.ext = im.cls then { im with fname := some q, xf := outXF im q } else im)
   | (o, fs') => (o, fs', im)
 
-/-- `img.get_fdata()` -/
-def getFdata (fs : FS) (im : Img) : Option (Nat × Img) :=
-  match im.cache with
-  | .owned d => some (d, im)
-  | .alias => (readLayout fs im.src im.srcDt im.srcScaled).map (fun d => (d, im))
-  | .none =>
+/-- `img.get_fdata(dtype)`; `w` = float32 requested -/
+def getFdata (fs : FS) (im : Img) (w : Bool) : Option (Nat × Img) :=
+  let fresh : Option (Nat × Img) :=
     match materialise fs im with
     | none => none
     | some m =>
       match deref fs m with
       | none => none
       | some d =>
-        -- np.asanyarray(dataobj, dtype=float64): no copy when the memmap already is float64
-        let aliasing := (match m with | .ref _ _ _ => true | .copy _ => false) && im.srcDt == .f64
-        some (d, { im with cache := if aliasing then .alias else .owned d })
+        -- np.asanyarray(dataobj, dtype): no copy when the memmap already has that (native) dtype
+        let aliasing := (match m with | .ref _ _ _ _ => true | .copy _ => false) && !im.srcBe &&
+                          im.srcDt == (if w then DT.f32 else DT.f64)
+        some (d, { im with cache := if aliasing then .alias w else .owned d w })
+  match im.cache with
+  | .owned d w' => if w' = w then some (d, im) else fresh
+  | .alias w' =>
+      if w' = w then (readLayout fs im.src im.srcDt im.srcBe im.srcScaled).map (fun d => (d, im)) else fresh
+  | .none => fresh
 
-/-- `img.to_bytes()`: `to_file_map` onto a BytesIO map (rebinds `file_map`); pairs have no `to_bytes` -/
+/-- classes that are serialisable to one byte string -/
+def Cls.hasToBytes : Cls → Bool
+  | .nifti1 | .nifti2 | .mgh => true
+  | _ => false
+
+/-- `img.to_bytes()`: `to_file_map` onto a BytesIO map (rebinds `file_map`); multi-file classes have no `to_bytes` -/
 def toBytes (fs : FS) (im : Img) : Out × Img :=
-  if im.cls = .pair then (.bytesErr, im)
+  if im.cls.hasToBytes = false then (.bytesErr, im)
   else
     match (materialise fs im).bind (deref fs) with
     | none => (.bad, im)
     | some d =>
-      (.bytes { data := d, aff := im.aff, dt := im.dt, tag := im.tag,
-                scaled := im.cls != .mgh && !im.dt.isFloat && im.arrFloat },
-       { im with fname := none, hdrAff := im.aff })
+      let x := reconcile closeId im.cls im.aff im.xf
+      (.bytes { cls := im.cls, data := d, aff := x.best, dt := im.dt, be := im.be, tag := im.tag,
+                scaled := im.cls != .mgh && !im.dt.isFloat && im.arrFloat, xf := x },
+       { im with fname := none, xf := x })
 
 /-- dtypes an MGH header accepts (`MGHHeader.set_data_dtype`) -/
 def mghOk : DT → Bool
@@ -233,11 +355,12 @@ def mghOk : DT → Bool
 
 inductive Op where
   | load (p : Path) (mm : Bool)
-  | fdata
+  | fdata (w : Bool)     -- `get_fdata()` / `get_fdata(dtype=np.float32)`
   | uncache
   | edit (k : Nat)
-  | setAff (k : Nat)     -- image API `img.set_sform/set_qform` (MGH: `img.affine[:] = A`): changes img.affine
-  | hdrEdit (k : Nat)    -- `img.header.set_sform(B)` / `set_sform(None,0)+set_qform(B)` / MGH Mdc,Pxyz_c: header only
+  | setAff (k : Nat)     -- image API `img.set_sform/set_qform` (MGH, SPM2: `img.affine[:] = A`): changes img.affine
+  | hdrEdit (k : Nat)    -- `img.header.set_sform(B, 3)` (k even) / `set_sform(None, 0); set_qform(B, 2)` (k odd) /
+                         -- MGH Mdc,Pxyz_c / SPM2 origin: header only
   | setDt (dt : DT)
   | save (q : Path)
   | toBytes
@@ -246,9 +369,16 @@ inductive Op where
 def load (fs : FS) (p : Path) (mm : Bool) : Option Img :=
   match fs p with
   | some (.intact c) =>
-      some { cls := p.cls, dt := c.dt, tag := c.tag, aff := c.aff, hdrAff := c.aff, data := c.data, src := p, srcDt := c.dt,
-             srcScaled := c.scaled, mm := mm, fname := some p, cache := .none }
+      some { cls := c.cls, dt := c.dt, be := c.be, tag := c.tag, aff := c.aff, xf := c.xf, data := c.data, src := p,
+             srcDt := c.dt, srcBe := c.be, srcScaled := c.scaled, mm := mm, fname := some p, cache := .none }
   | _ => none
+
+/-- `img.header.set_sform(B, code=3)` / `set_sform(None, code=0); set_qform(B, code=2)` / MGH direction fields -/
+def hdrEditXF (c : Cls) (k : Nat) (x : XF) : XF :=
+  match c with
+  | .mgh => { x with sa := k }
+  | .spm2 => x
+  | _ => if k % 2 = 0 then { x with sc := 3, sa := k } else { x with sc := 0, qc := 2, qa := k }
 
 /-- ops other than `load` need a live image -/
 def withImg (s : St) (f : Img → Out × St) : Out × St :=
@@ -261,16 +391,17 @@ def step (orig : Bool) (s : St) : Op → Out × St
       match load s.fs p mm with
       | some im => (.loadOk, { s with img := some im })
       | none => (.loadErr, s)
-  | .fdata => withImg s fun im =>
-      match getFdata s.fs im with
+  | .fdata w => withImg s fun im =>
+      match getFdata s.fs im w with
       | some (d, im') => (.fdata d, { s with img := some im' })
       | none => (.bad, s)
   | .uncache => withImg s fun im => (.unit, { s with img := some { im with cache := .none } })
   | .edit k => withImg s fun im => (.unit, { s with img := some { im with tag := k } })
   | .setAff k => withImg s fun im =>
-      -- NIfTI: the header is set and img.affine re-read from it; MGH: only the array `img.affine` is overwritten
-      (.unit, { s with img := some (if im.cls = .mgh then { im with aff := k } else { im with aff := k, hdrAff := k }) })
-  | .hdrEdit k => withImg s fun im => (.unit, { s with img := some { im with hdrAff := k } })
+      -- NIfTI: the header is set and img.affine re-read from it; MGH / SPM2: only the array `img.affine` is overwritten
+      (.unit, { s with img := some (if im.cls.isNifti then { im with aff := k, xf := ⟨2, k, 2, k⟩ }
+                                    else { im with aff := k }) })
+  | .hdrEdit k => withImg s fun im => (.unit, { s with img := some { im with xf := hdrEditXF im.cls k im.xf } })
   | .setDt dt => withImg s fun im =>
       if im.cls = .mgh ∧ mghOk dt = false then (.dtErr, s)
       else (.dtOk, { s with img := some { im with dt := dt } })
@@ -286,7 +417,7 @@ def probe (s : St) : Option (Option (Nat × Nat)) :=
   match s.img with
   | none => some none
   | some im =>
-    match getFdata s.fs im with
+    match getFdata s.fs im false with
     | none => none
     | some (d, _) =>
       match (materialise s.fs im).bind (deref s.fs) with
@@ -300,5 +431,20 @@ def run (orig : Bool) : St → List Op → List Out × Option St
     match step orig s op with
     | (.bad, _) => ([.bad], none)
     | (o, s') => let (os, f) := run orig s' rest; (o :: os, f)
+
+/-- class of the file the harness creates at each path -/
+def initCls : Path → Cls
+  | .sImg => .spm2
+  | .nNii => .nifti2
+  | .cImgGz => .pair
+  | p => p.cls
+
+def pathIdx (p : Path) : Nat := Path.all.idxOf p
+
+/-- initial file at `p`: data id / affine id = index of the path, tag 0, header as `Klass(arr, affine)` makes it -/
+def initContent (p : Path) (dt : DT) (be : Bool) (scaled : Bool) : Content :=
+  let c := initCls p
+  { cls := c, data := pathIdx p, aff := pathIdx p, dt := dt, be := be || c == .mgh, scaled := scaled, tag := 0,
+    xf := affine2header c (pathIdx p) ⟨0, 0, 0, 0⟩ }
 
 end Nb.C09
